@@ -19,6 +19,11 @@ Suites
   seed       backend.set_seed: same seed + same calls => same samples, whatever ran before
              (numpy backend, Clifford backend)
   parallel   qibo.parallel helpers with 1..4 workers against sequential execution
+  parallel-model  (tools/props/C14_parallel.py) the REAL helpers run under harness-imposed schedules
+             (turnstile on execute_circuit / apply_gate / sample_shots / set_parameters, from outside),
+             the observed objects, per-gate parameter reads, order of random draws replayed in the
+             scheduler model lean/QV/Model/Parallel.lean; every result against the job run alone
+  final      circuit._final_state after every prefix of a history = the model's St.final
   writes     attribute writes made by an execution (statistics) and their effect on old results
 """
 from __future__ import annotations
@@ -302,8 +307,10 @@ def run_history(spec, ops, chooser, permfn, how=None):
                     obs = "malformed: %s" % e
                 except Exception as e:  # the real code raised
                     obs = "raises: %s" % type(e).__name__
+                fin = getattr(c, "_final_state", None)
                 rec.append({"obs": obs, "used": len(be.calls) - c0, "calls": [list(x) for x in be.calls[c0:]],
-                            "perms": [list(x) for x in fs.perms[p0:]], "val": val})
+                            "perms": [list(x) for x in fs.perms[p0:]], "val": val,
+                            "final": next((i for i, rr in enumerate(results) if rr is fin), None)})
     finally:
         _Global._backend = old_backend
     return {"kind": kind, "widths": widths, "names": names, "pre": pre, "rec": rec, "circuit": c, "results": results}
@@ -623,6 +630,26 @@ def suite_histories(ctx, legacy):
     outs_h = run_driver(want, driver=DRIVER)
     bad = sum(1 for a, b in zip(outs_a, outs_h) if a != b)
     ctx.ob("C14_corr_projection", bad == 0, "correspondence", f"{bad} projections differ" if bad else "")
+    # `circuit._final_state` (what Circuit.final_state answers) after every prefix of the history:
+    # the model's `St.final` = the result of the LAST execution, whatever was asked in between
+    lines, want = [], []
+    for spec, ops, how, full in cases[: 400 if ctx.thorough else 120]:
+        for cut in sorted({len(ops), rng.randint(1, len(ops))}):
+            f2 = dict(full)
+            f2["rec"] = full["rec"][:cut]
+            lines.append(history_line("L", f2, ops[:cut], legacy))
+            fin = full["rec"][cut - 1]["final"]
+            want.append("-" if fin is None else str(fin))
+            nex = sum(1 for o in ops[:cut] if o[0] == "E")
+            if nex and fin != nex - 1 and not ctx.failures:
+                ctx.fail("final-state:not-last-execution",
+                         f"after the first {cut} operations of history {ops} on circuit {spec['gates']} circuit._final_state is result {fin}, not the result of the last execution ({nex - 1})",
+                         replay_history(spec, ops[:cut], how[:cut], [rc["calls"] for rc in f2["rec"]], [rc["perms"] for rc in f2["rec"]])
+                         .replace("raise SystemExit(1 if bad else 0)", "import sys\nres = full['results']\nsys.exit(0 if (not res or full['circuit']._final_state is res[-1]) else 1)"),
+                         expected=str(nex - 1), observed=str(fin), broken=["C14_corr_final_state"])
+    outs_l = run_driver(lines, driver=DRIVER)
+    bad = sum(1 for a, b in zip(outs_l, want) if a != b)
+    ctx.ob("C14_corr_final_state", bad == 0, "correspondence", f"{bad} of {len(lines)} prefixes: circuit._final_state differs from the state machine's" if bad else "")
 
 
 def _run_body(body):
@@ -1248,10 +1275,10 @@ def run(ctx):
     ctx.theorems = theorems
     build_and_audit(ctx, PROP, modules, theorems)
     ctx.trusted += [
-        "np.random.choice / np.random.shuffle / joblib thread scheduling are oracles: the model takes their answers as inputs; real thread schedules are only sampled (parallel suite)",
+        "np.random.choice / np.random.shuffle / joblib thread scheduling are oracles: the model takes their answers as inputs; real thread schedules are only sampled (parallel suite) or imposed at the granularity of the instrumented steps (parallel-model suite): preemption inside one step (one gate application, one set_parameters call) is not exhibited",
         "the state of a result is identified by comparing it (1e-9) with the snapshot taken when its execution returned",
     ]
-    ctx.notes.append("random call histories (<=10 ops) over one circuit object: model correspondence with recorded draws + every result against a fresh circuit object; fixed F8 traces; seeds; parallel helpers 1..4 workers")
+    ctx.notes.append("random call histories (<=10 ops) over one circuit object: model correspondence with recorded draws + every result against a fresh circuit object; fixed F8 traces; seeds; parallel helpers 1..4 workers; real helpers under imposed schedules replayed in the scheduler model (objects handed to the workers, per-gate parameter reads, order of random draws)")
     legacy = suite_legacy(ctx)
     suite_histories(ctx, legacy)
     suite_seed(ctx, legacy)
@@ -1259,4 +1286,6 @@ def run(ctx):
     suite_aliasing(ctx)
     suite_order(ctx)
     suite_parallel(ctx, legacy)
+    from props import C14_parallel
+    C14_parallel.run_suites(ctx)
     suite_writes(ctx)
